@@ -110,7 +110,23 @@ def gen_thread(rng):
         evs.insert(rng.randrange(1, len(evs) + 1), {'ev': 'flush'})
     if rng.random() < 0.3:
         evs.insert(rng.randrange(max(len(evs) - 2, 1), len(evs) + 1), {'ev': 'stop'})
-    return {'kind': 'thread', 'interval': rng.choice([0.05, '0.05', 3, 10]), 'evs': evs}
+    # a failure before the send (grpc.metadata() raising): a pass without a request
+    for _ in range(rng.randint(0, 1)):
+        evs.insert(rng.randrange(len(evs) + 1), {'ev': 'tick', 'op': {'op': 'pollFail', 'base': False, 'how': 'metadata'}})
+    interval = rng.choice([0.05, '0.05', 3, 10])
+    if rng.random() < 0.12:
+        # labelled stream: an interval the loop test cannot use (0: `_time` raises ZeroDivisionError, inf: Event.wait
+        # raises OverflowError) — a configuration value, not a poll outcome: not judged, compared with the model
+        interval = rng.choice([0, '0', 0.0, 'inf', float('inf')])
+    return {'kind': 'thread', 'interval': interval, 'evs': evs}
+
+
+def interval_unusable(iv):
+    try:
+        f = float(iv)
+    except (TypeError, ValueError):
+        return False
+    return f == 0 or f == float('inf')
 
 
 def race_case(rng):
@@ -304,6 +320,14 @@ def corpus():
             {'ev': 'tick', 'op': {'op': 'poll', 'nc': True, 'rt': 0, 'ts': 2, 'hash': '', 'tps': []}},
             {'ev': 'tick', 'op': _upd('h2', 3, ('a.py', 2, 's2'))},
             {'ev': 'tick', 'op': _upd('h3', 4, ('a.py', 3, 's3'))}, {'ev': 'stop'}]},
+        # POLL_TIMER 0 and inf: the loop test raises outside the try (labelled, not judged, compared with the model)
+        {'kind': 'thread', 'interval': 0, 'evs': [{'ev': 'tick', 'op': _upd('h1', 1, ('a.py', 1, 's1'))}, {'ev': 'stop'}]},
+        {'kind': 'thread', 'interval': 'inf', 'evs': [{'ev': 'tick', 'op': _upd('h1', 1, ('a.py', 1, 's1'))}]},
+        # a failure before the send: no request reaches the stub, the thread goes on
+        {'kind': 'thread', 'interval': 0.05, 'evs': [
+            {'ev': 'tick', 'op': {'op': 'pollFail', 'base': False, 'how': 'metadata'}},
+            {'ev': 'tick', 'op': _upd('h1', 1, ('a.py', 1, 's1'))},
+            {'ev': 'tick', 'op': {'op': 'pollFail', 'base': False, 'how': 'metadata'}}]},
         # shutdown stops the polling
         {'kind': 'thread', 'interval': 3, 'evs': [
             {'ev': 'tick', 'op': _upd('h1', 1, ('a.py', 1, 's1'))}, {'ev': 'stop'},
@@ -463,7 +487,7 @@ def oracle_thread(case, obs):
     if obs.get('skipped') or obs.get('bench_error'):
         return v
     ref = svcref.Reference()
-    running = True
+    running = not interval_unusable(case['interval'])    # POLL_TIMER 0 / inf: the thread never polls (probe + note)
     stopped = False
     issued = 0
     for n, (ev, t) in enumerate(zip(case['evs'], obs['trace'])):
@@ -486,7 +510,9 @@ def oracle_thread(case, obs):
             continue
         op = ev['op']
         sent = svcref.norm_hash(ref.latest_hash)
-        if t['issued'] != issued + 1:
+        if op.get('how') == 'metadata':
+            pass      # the failure comes before the send: whether a request was made is compared with the model
+        elif t['issued'] != issued + 1:
             v.append(f'{what}: the poll thread made {t["issued"] - issued} request(s) in this pass of its loop, expected 1')
         elif svcref.norm_hash(t['sent'][-1]) != sent:
             v.append(f'{what}: the poll reported hash {t["sent"][-1]!r}; the last configuration received has {sent!r}')
@@ -506,7 +532,7 @@ def oracle_thread(case, obs):
         if len(v) >= 4:
             break
     iv = obs.get('interval')
-    for x in obs.get('timeouts', []):
+    for x in ([] if interval_unusable(case['interval']) else obs.get('timeouts', [])):
         if not (isinstance(x, (int, float)) and 0 < x <= iv + 1e-9):
             v.append(f'the timer waited with timeout {x!r}; interval is {iv!r}')
             break
@@ -532,7 +558,7 @@ def timer_model_ops(case):
 
 
 def thread_model_evs(case):
-    out = []
+    out = [{'ev': 'testFails'}] if interval_unusable(case['interval']) else []
     for ev in case['evs']:
         if ev['ev'] != 'tick':
             out.append({'ev': ev['ev']})
@@ -543,6 +569,8 @@ def thread_model_evs(case):
             out.append({'ev': 'tick', 'out': 'answer', 'rt': d['rt'], 'ts': d['ts'], 'hash': d['hash'], 'tps': d['tps']})
         elif op.get('how') in ('garbage', 'bad_update'):
             out.append({'ev': 'tick', 'out': 'garbage', 'tps': []})
+        elif op.get('how') == 'metadata':
+            out.append({'ev': 'tick', 'out': 'before_send', 'base': False, 'tps': []})
         else:
             out.append({'ev': 'tick', 'out': 'raises', 'base': bool(op.get('base')), 'tps': []})
     return out
@@ -556,9 +584,10 @@ def compare_thread(case, obs, resp):
     if obs.get('bench_error'):
         return ['the bench could not run the case on this implementation: ' + obs['bench_error']]
     d = []
-    if len(resp['trace']) != len(obs['trace']):
+    if len(resp['trace']) != len(obs['trace']) + (1 if interval_unusable(case['interval']) else 0):
         return [f'trace length: model {len(resp["trace"])} vs implementation {len(obs["trace"])}']
-    for n, (ev, m, i) in enumerate(zip(case['evs'], resp['trace'], obs['trace'])):
+    mtrace = resp['trace'][1:] if interval_unusable(case['interval']) else resp['trace']
+    for n, (ev, m, i) in enumerate(zip(case['evs'], mtrace, obs['trace'])):
         what = f'event {n} {ev["ev"]}'
         for key in ('alive', 'issued', 'queued', 'died'):
             if m[key] != i[key]:
@@ -637,6 +666,8 @@ def label(case, obs):
         return 'timer/' + ('text' if isinstance(case['interval'], str) else 'number')
     if case['kind'] == 'thread':
         parts = ['thread']
+        if interval_unusable(case['interval']):
+            parts.append('interval-unusable')
         if any(_is_base(e) for e in case['evs']):
             parts.append('base-exception')
         if any(e['ev'] == 'flush' for e in case['evs']):
